@@ -279,9 +279,65 @@ CORPUS = [
 ]
 
 
+def history_cases(rng, pool):
+    """what a spec means does not depend on which specs the process parsed before: specs drawn from the generated
+    cases are parsed in fresh interpreters in several orders (pre-processor classes first, container-only
+    callables first, shuffled, reversed) and every outcome must be the one this process gets"""
+    import json
+    import os
+    import subprocess
+    import sys
+    import copy
+    pre = [x for x in pool if x[0][1] in PRE_TOKENS][:12]
+    plain = [x for x in pool if x[0][1] in ("Value", "Key")]
+    cont = [x for x in plain if "key" in x[0][2].lower() or "items" in x[0][2].lower()][:10]    # container-only callables
+    maps = cont + [x for x in plain if x not in cont][:6]
+    rest = [x for x in pool if x not in pre and x not in maps][:12]
+    if not pre or not maps:
+        return []
+    shuffled = pre + maps + rest
+    rng.shuffle(shuffled)
+    orders = [("pre-processor classes first", pre + maps + rest), ("plain classes first", maps + rest + pre),
+              ("shuffled", shuffled), ("reversed", shuffled[::-1])]
+    script = os.path.join(os.path.dirname(os.path.dirname(os.path.abspath(__file__))), "fresh_parse.py")
+    out = []
+    for name, seq in orders:
+        specs = [sp for _, sp in seq]
+        c = Case("spec_history", {"order": name, "specs": [enc.enc_val(sp) for sp in specs]})
+        c.py = ("# in a fresh interpreter\nfrom valida.conditions import *\n"
+                f"for spec in {terms.repr_py(specs)}:\n"
+                "    try:\n        print(ConditionLike.from_spec(spec))\n    except Exception as e:\n        print(type(e).__name__, e)")
+        here = []
+        for sp in specs:
+            enc.reset_opaque()
+            o = enc.outcome(lambda: ConditionLike.from_spec(copy.deepcopy(sp)))
+            here.append(["ok", enc.enc_cond(o[1])] if o[0] == "ok" else o)
+        try:
+            p = subprocess.run([sys.executable, script], input="\n".join(json.dumps(enc.enc_val(sp)) for sp in specs) + "\n",
+                               stdout=subprocess.PIPE, stderr=subprocess.PIPE, text=True, timeout=120)
+            fresh = [json.loads(l) for l in p.stdout.split("\n") if l.strip()]
+        except (subprocess.TimeoutExpired, OSError):
+            continue
+        if len(fresh) != len(specs):
+            continue
+        for i, (a, b) in enumerate(zip(json.loads(json.dumps(here)), fresh)):
+            if a != b:
+                c.fail("history_independent", f"spec #{i} {specs[i]!r:.120} parsed in a fresh interpreter ({name}) gives {b!r:.160}, "
+                                              f"in the long-running process {a!r:.160}")
+                break
+            if b[0] != "ok":
+                c.fail("spec_accepted", f"spec #{i} {specs[i]!r:.120} of a DSL term is rejected in a fresh interpreter ({name}): {b!r:.100}")
+                break
+        c.nontrivial = True
+        c.features.add(("history", name))
+        out.append(c)
+    return out
+
+
 def generate(rng, n, tier):
     g = Gen(rng, pct_strings=False, max_depth=2)
     cases = []
+    pool = []
     for t in CORPUS:
         for _ in range(3):
             sp = tree_spell(rng, t)
@@ -336,4 +392,11 @@ def generate(rng, n, tier):
         c = make_case(t, sp)
         if c is not None:
             cases.append(c)
-    return cases
+            if t[0] == "leaf" and len(pool) < 400:
+                try:
+                    enc.enc_val(sp)
+                    pool.append((t, sp))
+                except enc.Unencodable:
+                    pass
+    rng.shuffle(pool)
+    return cases + history_cases(rng, pool)
